@@ -12,6 +12,7 @@ import math
 import os
 import shutil
 import tempfile
+import warnings
 from fractions import Fraction
 
 import numpy as np
@@ -45,6 +46,8 @@ TRUSTED_BASE = [
 
 MARGIN = Fraction(1, 10 ** 6)
 logging.disable(logging.CRITICAL)
+# numpy ≥ 2.4: np.linalg.eig always returns complex arrays; nematic.py stores them into a float array
+warnings.filterwarnings("ignore", category=getattr(np, "exceptions", np).ComplexWarning)
 
 
 # ----------------------------------------------------------------------------- helpers
